@@ -195,8 +195,11 @@ SVEC_CAP = 4
 ARR_N = 3
 
 
+SMALL_DIM = 4
+
+
 def make_ref(kind):
-    if kind == 'vec': return RefSeq(None)
+    if kind in ('vec', 'small'): return RefSeq(None)
     if kind == 'svec': return RefSeq(SVEC_CAP)
     if kind == 'arr': return RefArr(ARR_N)
     raise ValueError(kind)
@@ -317,6 +320,38 @@ def svec_growing_resize(ops):
     return any(n == 'resize' and st[a[0]] is not None and len(st[a[0]]) < a[1] <= SVEC_CAP for n, a, st in sizes_along(ops, 'svec'))
 
 
+def small_ever_dynamic(ops):
+    """some small_vector object is in heap mode at some point: built with N >= DIM or more than DIM values, resized above
+    DIM, pushed at size == DIM, or copied / assigned from such an object"""
+    dyn = [False] * NSLOTS
+    for n, a, st in sizes_along(ops, 'small'):
+        s = a[0]
+        o = st[s]
+        if o is None:
+            if n == 'ctorN': dyn[s] = a[1] >= SMALL_DIM
+            elif n == 'ctorV': dyn[s] = len(a) - 1 > SMALL_DIM
+            elif n == 'ctor': dyn[s] = False
+            elif n == 'copy' and st[a[1]] is not None: dyn[s] = dyn[a[1]]
+        else:
+            if n == 'resize' and a[1] > SMALL_DIM: dyn[s] = True
+            elif n == 'push' and len(o) == SMALL_DIM: dyn[s] = True
+            elif n == 'assign' and st[a[1]] is not None: dyn[s] = dyn[a[1]]
+            elif n == 'destroy': dyn[s] = False
+        if any(dyn):
+            return True
+    return False
+
+
+def small_growth(ops):
+    """small_vector(N) with N >= DIM or a resize above the current size"""
+    for n, a, st in sizes_along(ops, 'small'):
+        if n == 'ctorN' and st[a[0]] is None and a[1] >= SMALL_DIM:
+            return True
+        if n == 'resize' and st[a[0]] is not None and a[1] > len(st[a[0]]):
+            return True
+    return False
+
+
 def in_domain(kind, ops):
     """history lies in the hypothesis domain of the Lean refinement / ledger theorems of its kind"""
     if kind == 'vec':
@@ -325,6 +360,8 @@ def in_domain(kind, ops):
         return not svec_oversize_ctor(ops) and not svec_growing_resize(ops)
     if kind == 'arr':
         return True
+    if kind == 'small':
+        return not small_growth(ops) and not small_ever_dynamic(ops) and not has_alias_push(ops)
     return False
 
 
@@ -356,6 +393,8 @@ KNOWN_PREDICATES = {
     'vec_alias_push': _pred('vec', has_alias_push),
     'svec_oversize_ctor': _pred('svec', svec_oversize_ctor),
     'svec_grow_after_shrink': _pred('svec', svec_grow_after_shrink),
+    'small_growth': _pred('small', small_growth),
+    'small_ever_dynamic': _pred('small', small_ever_dynamic),
     'maybe_nt_assign_unconstructed': _lpred('maybe', 'assign'),
     'maybe_nt_never_destroyed': _lpred('maybe', 'held'),
     'either_nt_construct_over_live': _lpred('either', 'over'),
@@ -389,7 +428,7 @@ def dead_ops(s, other_live, t, sized, variadic):
     return ops
 
 
-def enum_histories(L, two, kind='vec', resizes=(0, 1, 3, 6), sized=(0, 2, 5), variadic=(3,), nopush=False):
+def enum_histories(L, two, kind='vec', resizes=(0, 1, 3, 6), sized=(0, 2, 5), variadic=(3,), nopush=False, nopushat=False):
     """all histories of length exactly L over the reduced alphabet in which every operation is applicable
     (prefixes are observed too: the state is printed after every step)"""
     def rec(ref, t, acc):
@@ -408,6 +447,8 @@ def enum_histories(L, two, kind='vec', resizes=(0, 1, 3, 6), sized=(0, 2, 5), va
                 cands += live_ops(s, len(o), other, t, resizes, two)
         if nopush:
             cands = [c for c in cands if c[0] not in ('push', 'pushAt', 'resize')]
+        if nopushat:
+            cands = [c for c in cands if c[0] != 'pushAt']
         for n, a in cands:
             r2 = make_ref(kind)
             r2.objs = [None if x is None else list(x) for x in ref.objs]
@@ -450,7 +491,7 @@ def rand_history(rng, L, cap=None, maxn=9, vmax=5):
     return ops
 
 
-def rand_domain_history(rng, L, cap=None, vmax=5):
+def rand_domain_history(rng, L, cap=None, vmax=5, maxlen=None):
     """random history inside the theorem domain: no sized construction, no growing resize, no aliasing push"""
     ref = RefSeq(cap)
     ops = []
@@ -468,13 +509,14 @@ def rand_domain_history(rng, L, cap=None, vmax=5):
         else:
             c = rng.random()
             n = len(o)
-            if c < 0.40: op = ('push', [s, v])
+            if c < 0.40 and (maxlen is None or n < maxlen): op = ('push', [s, v])
             elif c < 0.50: op = ('resize', [s, rng.randrange(0, n + 1)])
             elif c < 0.65 and n: op = ('write', [s, rng.randrange(n), v])
             elif c < 0.72 and n: op = ('read', [s, rng.randrange(n)])
             elif c < 0.87: op = ('assign', [s, rng.choice([s, 1 - s])])
             elif c < 0.91: op = ('destroy', [s])
-            else: op = ('push', [s, v])
+            elif maxlen is None or n < maxlen: op = ('push', [s, v])
+            else: op = ('resize', [s, rng.randrange(0, n + 1)])
         ref.apply(*op)
         ops.append(op)
     return ops
@@ -567,7 +609,7 @@ def rand_ehistory(rng, L, kind):
 
 
 def harness_specs(tier):
-    return [dict(name='h_c19', src='h_c19.cpp', flavour='fast')]
+    return [dict(name='h_c19', src='h_c19.cpp', flavour='fast', extra=['-fno-lifetime-dse'])]
 
 
 def gen(tier, rng):
@@ -612,6 +654,18 @@ def gen(tier, rng):
         L = rng.choice([6, 7, 12, 30, 80, 200])
         yield from cases_for('svec', rng.choice(['int', 'double']), rand_history(rng, L, cap=SVEC_CAP, maxn=7, vmax=4), ['random'])
         yield from cases_for('svec', rng.choice(['int', 'double']), rand_domain_history(rng, L, cap=SVEC_CAP, vmax=4), ['random-domain'])
+    # nmtools::small_vector<T,4> over utl::either<utl::static_vector, utl::vector> ------------------
+    for L in ([5] if quick else [5, 6]):
+        for ops in enum_histories(L, two=False, kind='small', resizes=(0, 1, 3, 4, 6), sized=(0, 2, 4, 6), variadic=(3, 5), nopushat=True):
+            yield from cases_for('small', 'int', ops, ['exhaustive-1obj'])
+    n2 = 0
+    for ops in enum_histories(4 if quick else 5, two=True, kind='small', resizes=(0, 2, 5), sized=(3, 5), variadic=(5,), nopushat=True):
+        n2 += 1
+        yield from cases_for('small', 'double' if n2 % 2 else 'int', ops, ['exhaustive-2obj'])
+    for k in range(300 if quick else 4000):
+        L = rng.choice([6, 7, 12, 30, 80, 200])
+        yield from cases_for('small', rng.choice(['int', 'double']), [o for o in rand_history(rng, L, maxn=7, vmax=6) if o[0] != 'pushAt'], ['random'])
+        yield from cases_for('small', rng.choice(['int', 'double']), rand_domain_history(rng, L, vmax=4, maxlen=SMALL_DIM), ['random-domain'])
     # utl::array<T,3> -----------------------------------------------------------------------------
     n2 = 0
     for ops in enum_histories(4 if quick else 6, two=True, kind='arr', resizes=(), sized=(), variadic=(2, 3), nopush=True):
@@ -635,6 +689,8 @@ WITNESSES = [
     ('vec', 'int', 'ctorN:0:0;destroy:0'),
     ('vec', 'int', 'ctor:0;push:0:10;push:0:11;push:0:12;push:0:13;pushAt:0:0'),
     ('svec', 'int', 'ctorN:0:7'),
+    ('small', 'int', 'ctorN:0:5'),
+    ('small', 'int', 'ctor:0;push:0:1;push:0:2;push:0:3;push:0:4;push:0:5;destroy:0'),
     ('svec', 'int', 'ctor:0;push:0:1;push:0:2;push:0:3;resize:0:1;resize:0:3'),
 ]
 
